@@ -31,8 +31,78 @@ class BoolClient(Client):
     Everything else (appends, joins, decode, callbacks) has no influence on the flags."""
     NO_DATASET = 0x0101
 
-    def __init__(self, tracked):
+    def __init__(self, tracked, repo=None, cls=None, depth=0):
         self.tracked = tracked
+        self.repo, self.cls, self.depth = repo, cls, depth
+
+    # ---- interprocedural: helper methods of the decoder (also reached through a class-level dispatch dict keyed by the
+    # marker) are entered with the current flags; their constant return value decides the caller's branch
+    def class_dict(self, name):
+        """{constant key: method name} of a class-level dict whose values are functions of the class body"""
+        if self.cls is None:
+            return None
+        hit = self.cls.find_attr(name)
+        if hit is None or not isinstance(hit[1], ast.Dict):
+            return None
+        out = {}
+        for k, v in zip(hit[1].keys, hit[1].values):
+            kk = self.repo.try_fold(k, hit[0].module, hit[0]) if k is not None else None
+            if kk is None or not isinstance(v, ast.Name) or hit[0].find_method(v.id) is None:
+                return None
+            out[kk] = v.id
+        return out
+
+    def callee_of(self, call, state):
+        """(method FuncInfo, argument expressions after self) for a call the analysis can enter, else None"""
+        if self.cls is None or self.depth > 4 or not isinstance(call, ast.Call):
+            return None
+        fn = call.func
+        ch = attr_chain(fn)
+        if ch and len(ch) == 2 and ch[0] == 'self':
+            m = self.cls.find_method(ch[1])
+            if m is not None and m.kind == 'method' and not any(isinstance(n, (ast.Yield, ast.YieldFrom)) for n in ast.walk(m.node)) \
+                    and self.repo.is_helper(m):
+                return m, list(call.args)
+        if isinstance(fn, ast.Name):
+            v = self.get(state, fn.id)
+            if isinstance(v, tuple) and len(v) == 2 and v[0] == '$FUNC':
+                m = self.cls.find_method(v[1])
+                if m is not None and call.args and isinstance(call.args[0], ast.Name) and call.args[0].id == 'self':
+                    return m, list(call.args[1:])
+        return None
+
+    def enter(self, m, args, state):
+        """-> [(state after the call, return value)]"""
+        params = m.params[1:]
+        inner = state
+        saved = {}
+        for p_, a_ in zip(params, args):
+            saved[p_] = self.get(state, p_)
+            inner = self.put(inner, p_, self.value(a_, state))
+        sub = type(self)(self.tracked | set(params), self.repo, self.cls, self.depth + 1)
+        o = Flow(sub).run(body_without_docstring(m.node), [self.put(inner, '$ret', None)])
+        outs = []
+        for s2 in list(o.fall):
+            outs.append((s2, None))
+        for s2, _rid in o.ret:
+            outs.append((s2, self.get(s2, '$ret')))
+        res = []
+        for s2, rv in outs:
+            # the callee's parameters and locals are gone; flags (self.*) and the caller's locals stay
+            keep = [(n, v) for n, v in s2 if n.startswith('self.') or n.startswith('$no_ds')]
+            caller_locals = [(n, v) for n, v in state if not n.startswith('self.') and not n.startswith('$no_ds')]
+            res.append((frozenset(keep + caller_locals), rv))
+        if o.exc:
+            self._pending_exc = getattr(self, '_pending_exc', set()) | {(state, e_) for _s, e_ in o.exc}
+        return res
+
+    def on_return(self, st, state):
+        v = self.value(st.value, state) if st.value is not None else None
+        if isinstance(st.value, ast.Call):
+            hit = self.callee_of(st.value, state)
+            if hit is not None:
+                return [self.put(s2, '$ret', rv) for s2, rv in self.enter(hit[0], hit[1], state)]
+        return [self.put(state, '$ret', v)]
 
     def nods_polarity(self, e):
         """True for ``x == 0101H``, False for ``x != 0101H``, None for anything else."""
@@ -75,18 +145,36 @@ class BoolClient(Client):
             return U if v is U else not v
         n = self.name_of(e)
         if n is not None:
+            if n.startswith('self.') and n not in self.tracked and self.class_dict(n[5:]) is not None:
+                return tuple(sorted(self.class_dict(n[5:]), key=str))     # membership tests see the keys
             return self.get(state, n)
+        if isinstance(e, ast.Subscript) and attr_chain(e.value) and attr_chain(e.value)[0] == 'self' and len(attr_chain(e.value)) == 2:
+            d = self.class_dict(attr_chain(e.value)[1])
+            k = self.value(e.slice, state)
+            if d is not None and k is not U and k in d:
+                return ('$FUNC', d[k])
         if isinstance(e, (ast.Tuple, ast.List, ast.Set)):
             vals = [self.value(x, state) for x in e.elts]
             return tuple(vals) if U not in vals else U
         return U
 
     def stmt(self, st, state):
+        if isinstance(st, ast.Expr) and isinstance(st.value, ast.Call):
+            hit = self.callee_of(st.value, state)
+            if hit is not None:
+                return [s2 for s2, _rv in self.enter(hit[0], hit[1], state)]
+        if isinstance(st, ast.Assign) and len(st.targets) == 1 and isinstance(st.value, ast.Call) and self.callee_of(st.value, state):
+            hit = self.callee_of(st.value, state)
+            n0 = self.name_of(st.targets[0])
+            outs = []
+            for s2, rv in self.enter(hit[0], hit[1], state):
+                outs.append(self.put(s2, n0, rv if isinstance(rv, bool) else U) if n0 else s2)
+            return outs
         if isinstance(st, ast.Assign) and len(st.targets) == 1:
             n = self.name_of(st.targets[0])
             if n is not None and (n in self.tracked or isinstance(st.targets[0], ast.Name)):
                 v = self.value(st.value, state)
-                if isinstance(v, bool):
+                if isinstance(v, bool) or (isinstance(v, tuple) and v[:1] == ('$FUNC',)):
                     return [self.put(state, n, v)]
                 if n == 'self.receiving':
                     raise AnalysisError('receiving assigned a non-constant at line %d' % st.lineno)
@@ -94,6 +182,18 @@ class BoolClient(Client):
         return [state]
 
     def atom_branch(self, test, state):
+        hit = self.callee_of(test, state)
+        if hit is not None:
+            ts, fs = [], []
+            for s2, rv in self.enter(hit[0], hit[1], state):
+                if rv is U or not isinstance(rv, (bool, type(None))):
+                    ts.append(s2)
+                    fs.append(s2)
+                elif rv:
+                    ts.append(s2)
+                else:
+                    fs.append(s2)
+            return ts, fs
         r = self.decide(test, state)
         if r is True:
             return [state], []
@@ -210,7 +310,7 @@ def run(repo, rep):
                             if isinstance(st, ast.Assign) and isinstance(st.targets[0], ast.Name) and st.targets[0].id == marker_var:
                                 return [state]
                             return BoolClient.stmt(self_inner, st, state)
-                    cl = _C(tracked)
+                    cl = _C(tracked, repo, dec)
                     o = Flow(cl).run(loop.body, [pre])
                     outs = list(o.fall) + list(o.brk) + list(o.cont) + [s for s, _ in o.ret]
                     # spec
@@ -241,9 +341,26 @@ def run(repo, rep):
     # ---------------------------------------------------------------- D1
     p1 = []
     tests = []
-    for n in ast.walk(loop):
-        if isinstance(n, ast.Compare) and isinstance(n.left, ast.Name) and n.left.id == marker_var and len(n.ops) == 1:
+    # the marker may be handed to helper methods (as a parameter of any name) and may select a handler from a
+    # class-level table: every comparison of it, wherever it was moved, and the keys of such a table count
+    marker_nodes = [(n, marker_var) for n in ast.walk(loop)]
+    for hf in repo.helper_closure(proc)[1:]:
+        for pn in hf.params[1:]:
+            if pn == marker_var or 'marker' in pn or 'flag' in pn or 'header' in pn:
+                marker_nodes += [(n, pn) for n in ast.walk(hf.node)]
+    for n, mv in marker_nodes:
+        if isinstance(n, ast.Compare) and isinstance(n.left, ast.Name) and n.left.id == mv and len(n.ops) == 1:
             v = repo.try_fold(n.comparators[0], fsm, dec)
+            if v is None and attr_chain(n.comparators[0]) and attr_chain(n.comparators[0])[0] == 'self':
+                d_ = BoolClient(set(), repo, dec).class_dict(attr_chain(n.comparators[0])[-1])
+                if d_ is not None:
+                    # a dispatch table: its keys grouped by handler are the sets the marker is tested against
+                    groups = {}
+                    for k_, h_ in d_.items():
+                        groups.setdefault(h_, []).append(k_)
+                    for ks in groups.values():
+                        tests.append(('In', tuple(ks)))
+                    continue
             tests.append((type(n.ops[0]).__name__, v))
     sets = [frozenset(v) if isinstance(v, (tuple, list, frozenset)) else frozenset([v]) for op, v in tests if op in ('In', 'Eq')]
     for want in (frozenset(CMD_FLAGS), frozenset([CMD_FLAGS[1]]), frozenset(DATA_FLAGS), frozenset([DATA_FLAGS[1]])):
@@ -261,7 +378,7 @@ def run(repo, rep):
             if isinstance(st, ast.Assign) and isinstance(st.targets[0], ast.Name) and st.targets[0].id == marker_var:
                 return [state]
             return [state]
-    o = Flow(_C2({marker_var})).run(loop.body, [frozenset([(marker_var, 4)])])
+    o = Flow(_C2({marker_var}, repo, dec)).run(loop.body, [frozenset([(marker_var, 4)])])
     if o.fall or o.cont or o.brk or not o.exc:
         p1.append('a message control header outside {0,1,2,3} does not raise')
     rep.check(not p1, 'C07.D1', 'fsm:DIMSEDecoder.process:marker-sets', proc.loc(loop),
@@ -439,9 +556,10 @@ def run(repo, rep):
     # no_ds source
     p5 = []
     bc = BoolClient(set())
-    cmps = [n for n in ast.walk(proc.node) if isinstance(n, ast.Compare) and bc.nods_polarity(n) is not None]
+    proc_nodes = [n for hf in repo.helper_closure(proc) for n in ast.walk(hf.node)]
+    cmps = [n for n in proc_nodes if isinstance(n, ast.Compare) and bc.nods_polarity(n) is not None]
     # any other comparison of the CommandDataSetType element is not the PS3.7 test
-    for n in ast.walk(proc.node):
+    for n in proc_nodes:
         if isinstance(n, ast.Compare) and n not in cmps:
             for sub in ast.walk(n):
                 if isinstance(sub, ast.Subscript) and repo.try_fold(sub.slice, fsm, dec) == (0x0000, 0x0800):
